@@ -5,6 +5,18 @@ props = [json.loads(l) for l in open('/verif/properties.jsonl')]
 
 # id -> (level text, level note, technique)
 CHECKS = {
+ "C08": ("Random instruction sequences with several definitions of each kind (keys from small pools so that redefinition happens, 4 frame identifiers) are built into a Program by 10 routes in one process and, for a sample, in a second process; every route must print byte-identical text, and the listing within each definition kind must equal an insertion-ordered reference map (first insertion fixes the position, redefinition replaces in place).",
+         "Order between definition kinds is not asserted (the statement is silent); the route through text is used only when the parser reads back an equal program.",
+         "property-based testing: proptest-generated instruction sequences; metamorphic (same input, many construction routes, two processes) + reference-model oracle"),
+ "C09": ("Random instruction sequences (all definition kinds incl. named, unnamed and non-identifier PRAGMA EXTERN, redefinitions, body instructions) added one by one; to_instructions vs into_instructions, rebuild from either listing (==, text, listing), body order through three accessors, and last-value-per-key against the reference map.",
+         "Definition order within a kind is left to C08.",
+         "property-based testing: proptest-generated instruction sequences; differential (two listings), round-trip and reference-model oracle"),
+ "C10": ("Random histories of up to 8/20 public operations over 1-3 live programs (build, add, +, +=, clone without body, placeholder resolution default/custom, both calibration-expansion entry points, both gate-sequence-expansion entry points under all 8 filters, simplify, wrap_in_loop, filter_instructions, dagger, parse of the printed text); after every step every live program's used-qubit set is compared with the union of Instruction::get_qubits over its listing, and program equality with a rebuild from its listing and between live programs with equal listings.",
+         "'Qubits mentioned' is the library's own Instruction::get_qubits. Known finding c10-clone-without-body-drops-definition-qubits is attributed only when nothing but qubits that no body instruction mentions is missing and the program went through an operation that empties the cache; anything else is reported.",
+         "property-based testing: proptest-generated operation histories (vector of ops + interpreter, shrinks as one value), invariant checked after every step"),
+ "C11": ("Random pairs (A, B) over the shared definition generator with B steered towards A's keys; A+B and A+=B are compared with each other and with a reference merge (body appended, B wins on common keys, all others kept), the used-qubit set with the union, and both identity laws with ==, listing, text and used qubits.",
+         "Used-qubit clause read together with C10: a qubit that only a replaced definition of A mentioned may be absent from A+B; every other qubit of the union must be present and nothing else.",
+         "property-based testing: proptest-generated program pairs against a reference merge model + algebraic identity laws"),
  "C16": ("Random calibration sets over small alphabets with queries that instantiate a definition (so several candidates match), compared with a reference matcher for gates and measurements, the insertion-ordered set semantics, and the body chosen by expand_calibrations.",
          "Parameter alphabet chosen so that equal constant value and the library's equal-after-simplification coincide; placeholder qubits are not generated (the statement is silent).",
          "property-based testing: proptest-generated calibration sets and queries against a reference matcher"),
